@@ -229,6 +229,8 @@ def check_history(ctx, case: Dict[str, Any], obs: Dict[str, Any], *, timeout: fl
             ctx.violation("request_content", f"request id {dump.get('id')!r} is not str/int", case)
         ep = expect_request.get("params")
         gp = dump.get("params")
+        if expect_request.get("meta_added") and isinstance(gp, dict) and "_meta" in gp and not (isinstance(ep, dict) and "_meta" in ep):
+            gp = {k: v for k, v in gp.items() if k != "_meta"}   # the progress token the library adds
         if not (strict_eq(gp, ep) or (ep is None and gp in (None, {})) ):
             ctx.violation("request_content", f"request params {gp!r} != given {ep!r}", case)
     extra = [e for e in sends if e not in reqs]
@@ -390,6 +392,14 @@ def gen_cases(ctx):
                    "arrivals": [[shift, "notification"], [round(T + 0.1, 3), "match_result"]]}
             yield {"mid": None, "params": None, "build": "parse", "timeout": T,
                    "arrivals": [[shift, "other_response"], [round(T - 0.05, 3), "match_result"]]}
+    # 1c. the optional arguments of the call switch on other code paths in the wait loop: every kind, alone and
+    #     followed by a matching response, with a progress callback and/or a (never triggered) cancellation token
+    for optset in (["progress_cb"], ["cancel_token"], ["progress_cb", "cancel_token"]):
+        for kind in KINDS:
+            for t in (0.0, 0.5, 0.75):
+                yield {"mid": None, "params": None, "build": "parse", "arrivals": [[t, kind]], "opts": optset}
+                yield {"mid": "123", "params": {"a": 1}, "build": "validate", "opts": optset,
+                       "arrivals": [[t, kind], [round(t + 0.3, 3), "match_result2"]]}
     # 2. all ordered pairs of kinds on coarse slots (t1<=t2)
     for k1, k2 in itertools.product(KINDS, repeat=2):
         for i, t1 in enumerate(coarse):
@@ -417,7 +427,8 @@ def gen_cases(ctx):
         yield {"mid": rng.choice(ID_SHAPES), "params": rng.choice(PARAMS_SHAPES),
                "build": rng.choice(["parse", "validate"]),
                "arrivals": [[t, rng.choice(KINDS)] for t in ts], "tie": rng.randint(0, 3),
-               "inject": rng.choice(["task", "task", "timer"])}
+               "inject": rng.choice(["task", "task", "timer"]),
+               "opts": rng.choice([[], [], ["progress_cb"], ["cancel_token"], ["progress_cb", "cancel_token"]])}
 
 
 def exec_case(ctx, case: Dict[str, Any]) -> None:
@@ -428,9 +439,19 @@ def exec_case(ctx, case: Dict[str, Any]) -> None:
 
     T = case.get("timeout", TIMEOUT)
 
+    opts = case.get("opts") or []
+    kw: Dict[str, Any] = {}
+    if "progress_cb" in opts:
+        async def _cb(progress, total, message):
+            return None
+        kw["progress_callback"] = _cb
+    if "cancel_token" in opts:
+        from chuk_mcp.protocol.messages.send_message import CancellationToken
+        kw["cancellation_token"] = CancellationToken()   # never triggered
+
     async def call(r, w):
         return await send_message(r, w, "tools/call", params, timeout=T,
-                                  message_id=case["mid"])
+                                  message_id=case["mid"], **kw)
 
     async def main():
         return await _drive(case, call)
@@ -442,7 +463,8 @@ def exec_case(ctx, case: Dict[str, Any]) -> None:
         ctx.record(case, shape="hang")
         return
     mid = case["mid"]
-    expect = {"method": "tools/call", "id": mid if mid else None, "params": case["params"]}
+    expect = {"method": "tools/call", "id": mid if mid else None, "params": case["params"],
+              "meta_added": "progress_cb" in opts}
     shape = check_history(ctx, case, obs, timeout=T, expect_request=expect)
     ctx.record(case, shape=shape, nontrivial=bool(case["arrivals"]),
                cls=case["arrivals"][0][1] if len(case["arrivals"]) == 1 else f"len{min(len(case['arrivals']), 4)}",
